@@ -21,6 +21,7 @@ pub mod c16;
 pub mod c17;
 pub mod c18;
 pub mod c19;
+pub mod c20;
 
 #[derive(Clone, Debug)]
 pub struct Ctx {
@@ -79,6 +80,7 @@ pub async fn dispatch(prop: &str, ctx: &Ctx, rep: &mut Report) -> bool {
         "C17" => c17::run(ctx, rep).await,
         "C18" => c18::run(ctx, rep).await,
         "C19" => c19::run(ctx, rep).await,
+        "C20" => c20::run(ctx, rep).await,
         _ => return false,
     }
     true
